@@ -10,6 +10,7 @@ import (
 	"time"
 
 	"verif/harness/adjdrv"
+	"verif/harness/builddrv"
 	"verif/harness/convdrv"
 	"verif/harness/injdrv"
 	"verif/harness/launchdrv"
@@ -66,6 +67,23 @@ func main() {
 		fs.Int64("seed", 1, "unused")
 		fs.Parse(args)
 		if err := ocidrv.Run(*in, *out, *reps); err != nil {
+			fail(err)
+		}
+	case "build":
+		fs := flag.NewFlagSet(mod, flag.ExitOnError)
+		in := fs.String("in", "", "scenarios")
+		out := fs.String("out", "", "trace file")
+		fs.Parse(args)
+		if err := builddrv.Run(*in, *out); err != nil {
+			fail(err)
+		}
+	case "build-gen":
+		fs := flag.NewFlagSet(mod, flag.ExitOnError)
+		out := fs.String("out", "", "scenario file")
+		n := fs.Int("n", 1000, "number of sequences")
+		seed := fs.Int64("seed", 1, "seed")
+		fs.Parse(args)
+		if err := builddrv.Generate(*out, *n, *seed); err != nil {
 			fail(err)
 		}
 	case "oci-gen":
